@@ -3,7 +3,8 @@ use crate::engine::Spec;
 pub mod c02;
 pub mod c03;
 pub mod c04;
+pub mod c06;
 
 pub fn all() -> Vec<Spec> {
-    vec![c02::spec(), c03::spec(), c04::spec()]
+    vec![c02::spec(), c03::spec(), c04::spec(), c06::spec()]
 }
